@@ -86,6 +86,7 @@ pub fn all_ops(forest: &[A], menu: OpMenu) -> Vec<Op> {
         ops.push(AppendComment(a));
         ops.push(SetAttr(a, 0, "w".into()));
         ops.push(SetAttr(a, 1, "w".into()));
+        ops.push(SetAttr(a, 2, "".into()));
         ops.push(RemoveAttr(a, 0));
         ops.push(SetNs(a, 1, 1));
         ops.push(SetNs(a, 0, 0));
